@@ -631,13 +631,10 @@ func ruleV5(c *an.Ctx) {
 		w := an.Query{Fn: attach, Target: an.IsReturn,
 			Barrier: func(in ssa.Instruction) bool { return in == ssa.Instruction(rng) },
 			BarrierEdge: func(from, to *ssa.BasicBlock) bool {
-				cnd, t, ok := an.EdgeCond(from, to)
-				if !ok {
-					return false
-				}
-				r := an.Normalize(cnd, t)
-				// self.parent != self.top
-				return r.Op == token.NEQ && (an.LoadsField(an.Strip(r.X), parent) || an.LoadsField(an.Strip(r.Y), parent))
+				return an.EdgeHolds(from, to, func(r an.Rel) bool {
+					// self.parent != self.top
+					return r.Op == token.NEQ && (an.LoadsField(an.Strip(r.X), parent) || an.LoadsField(an.Strip(r.Y), parent))
+				})
 			}}.Find()
 		c.Check("V5", "top-level-pipeline-registers-outputs@(*Node).attachToFileParents", attach.Pos(), w == nil,
 			"only a non-top-level pipeline may skip registration; the top-level pipeline must register the files it returns; "+c.WitnessString(w))
@@ -725,16 +722,13 @@ func copiesNestedMap(fn *ssa.Function, f *types.Var) (bool, string) {
 	w := an.Query{Fn: fn, Target: an.IsReturn,
 		Barrier: func(in ssa.Instruction) bool { return in == ssa.Instruction(outer) },
 		BarrierEdge: func(from, to *ssa.BasicBlock) bool {
-			cnd, t, ok := an.EdgeCond(from, to)
-			if !ok {
-				return false
-			}
-			r := an.Normalize(cnd, t)
-			if r.Op == token.ILLEGAL {
-				return false
-			}
-			// len(src.f) <= 0 / == 0, and nothing else in the condition
-			return (relEq(r, isLenF, zero) || (r.Op == token.LEQ && isLenF(r.X) && zero(r.Y))) && an.RootOf(an.Strip(lenArg(r))) == src
+			return an.EdgeHolds(from, to, func(r an.Rel) bool {
+				if r.Op == token.ILLEGAL {
+					return false
+				}
+				// len(src.f) <= 0 / == 0, and nothing else in the condition
+				return (relEq(r, isLenF, zero) || (r.Op == token.LEQ && isLenF(r.X) && zero(r.Y))) && an.RootOf(an.Strip(lenArg(r))) == src
+			})
 		}}.Find()
 	if w != nil {
 		return false, "the copy of " + f.Name() + " can be skipped although the source map is not empty"
@@ -777,12 +771,9 @@ func copiesNestedMap(fn *ssa.Function, f *types.Var) (bool, string) {
 			if exitEdge(onext)(from, to) {
 				return true
 			}
-			cnd, tr, ok := an.EdgeCond(from, to)
-			if !ok {
-				return false
-			}
-			r := an.Normalize(cnd, tr)
-			return r.Op == token.EQL && an.IsNil(r.Y) && t.Has(r.X) // m == nil
+			return an.EdgeHolds(from, to, func(r an.Rel) bool {
+				return r.Op == token.EQL && an.IsNil(r.Y) && t.Has(r.X) // m == nil
+			})
 		}}.Find()
 	if w != nil {
 		return false, "an entry's inner map can be skipped although it is not nil"
@@ -920,12 +911,9 @@ func ruleV7(c *an.Ctx) {
 			return false
 		},
 		BarrierEdge: func(from, to *ssa.BasicBlock) bool {
-			cnd, t, ok := an.EdgeCond(from, to)
-			if !ok {
-				return false
-			}
-			r := an.Normalize(cnd, t)
-			return r.Op == token.NEQ && isErrOfLstat(r.X) && an.IsNil(r.Y)
+			return an.EdgeHolds(from, to, func(r an.Rel) bool {
+				return r.Op == token.NEQ && isErrOfLstat(r.X) && an.IsNil(r.Y)
+			})
 		}}.Find()
 	c.Check("V7", "resolved-name-always-computed@getLogicalFileNames", lstat.Pos(), w == nil && len(evals) > 0,
 		"once the file exists every returning path must consult filepath.EvalSymlinks: a file reached through a symlinked directory is otherwise cached under one name only and an argument naming it the other way does not keep it alive; "+c.WitnessString(w))
